@@ -109,6 +109,7 @@ let show_verdict = function
   | Fails c -> (match int_of_n c with
       | 1 -> "fails:C18-input-readded-with-other-owner"
       | 2 -> "fails:C18-script-inline-and-by-reference"
+      | 3 -> "fails:C18-genesis-delegation-witness"
       | _ -> "fails:-")
 
 let () = run_driver (fun toks impl ->
